@@ -126,6 +126,26 @@ def gen_scenario(rng, feat, mode, ntasks=1, flags=None, big=False):
     return Sc(feat, mode, ops, bodies, roots, acts)
 
 
+def gen_yield_delivery(rng, feat):
+    """Targeted family: a waitable that is not awaited by the body that yields (leaked operation, or the
+    operation side of a join) has its event ready in the same turn in which a body yields: the runtime
+    delivers it in-line, polls again, and what happens next (block without a wake / yield again / finish)
+    decides the answer."""
+    ops = [rng.choice(["sub", "sr", "fr", "sw"]), rng.choice(["sub", "sub0", "sr", "fw"])]
+    first = rng.choice(["g0", "j0.0"])
+    tail = rng.choice([["a1"], ["y", "a1"], ["a1", "y"], [], ["c", "a1"], ["f1"] if feat in ("i", "a") else ["a1"]])
+    body = [first] + ["y"] * rng.range(1, 3) + tail
+    acts = ["s0"]
+    for _ in range(rng.range(0, 2)):
+        acts.append(rng.choice(["n0", "e0"]))
+    acts.append("r0")
+    if first.startswith("j"):
+        acts.append("w0")
+    for _ in range(rng.range(1, 4)):
+        acts.append(rng.choice(["n0", "n0", "e0", "r0"]))
+    return Sc(feat, "S", ops, [body], [0], acts)
+
+
 # ---------------------------------------------------------------------------------------------- builds
 TARGETS = ["theories/Extract/ExTask.vo"]
 
